@@ -52,8 +52,12 @@ theorem make_last_to_evict_app (l : Lookup) (k : String) :
         | some l' => (.ok (), l')
         | none => (.error .keyError, l) := make_last_to_evict_exec l k
 
-theorem insert_eq (l : Lookup) (k : String) (habs : l.find? k = none) (hne : l.evicting = true → l.data ≠ []) :
-    outcome ((Gen.Lookup.insert k).exec l) = l.insert k := by
+/-- `insert`, with the attributes after an exception: a refused insertion leaves the table untouched -/
+theorem insert_exec (l : Lookup) (k : String) (habs : l.find? k = none) (hne : l.evicting = true → l.data ≠ []) :
+    (Gen.Lookup.insert k).exec l
+      = match l.insert k with
+        | .ok (l', i) => (.ok i, l')
+        | .error e => (.error e, l) := by
   unfold Gen.Lookup.insert Lookup.insert
   obtain ⟨ms, data, ev, pinned⟩ := l
   simp only [Lookup.find?] at habs
@@ -76,6 +80,12 @@ theorem insert_eq (l : Lookup) (k : String) (habs : l.find? k = none) (hne : l.e
         | some ps =>
           by_cases hp : k0 ∈ ps <;>
             py_simp [hms, hc, hc', hp, odSet, odPopFirst, odFirstKey, setContains, Lookup.pin, Lookup.isPinned, setAdd]
+
+theorem insert_eq (l : Lookup) (k : String) (habs : l.find? k = none) (hne : l.evicting = true → l.data ≠ []) :
+    outcome ((Gen.Lookup.insert k).exec l) = l.insert k := by
+  rw [insert_exec l k habs hne]
+  rcases l.insert k with _ | ⟨l', i⟩ <;> rfl
+
 theorem entry_index_eq (e : LookupEnc) (k : String) (hne : e.lookup.evicting = true → e.lookup.data ≠ []) :
     outcome ((Gen.LookupEncoder.encode_entry_index k).exec e) = e.entryIndex k := by
   unfold Gen.LookupEncoder.encode_entry_index LookupEnc.entryIndex
@@ -252,6 +262,103 @@ theorem make_last_to_evict_eq (l : Lookup) (k : String) :
 
 theorem at_eq (d : LookupDec) (index : Nat) (h : index ≠ 0) :
     swap ((Gen.LookupDecoder.at index).exec d) = d.at index := at_app d index h
+
+/-! ## The same with the attributes AFTER an exception (needed where a caller goes on holding the object) -/
+
+/-- what a writer-side method does, state kept on a raise: `g e` is the model's result -/
+def execLike (g : Except PyErr (σ × α)) (e : σ) : Except PyErr α × σ :=
+  match g with
+  | .ok (e', r) => (.ok r, e')
+  | .error err => (.error err, e)
+
+theorem moveToEnd_find {l l' : Lookup} {k : String} (h : l.moveToEnd k = some l') : ∃ p, l'.find? k = some p := by
+  unfold Lookup.moveToEnd at h
+  cases hf : l.find? k with
+  | none => simp [hf] at h
+  | some e =>
+    simp only [hf, Option.some.injEq] at h
+    have hk : (e.1 == k) = true := by
+      have := List.find?_some hf
+      simpa using this
+    subst h
+    have : (({ l with data := l.data.erase e ++ [e] } : Lookup).pin k).data = l.data.erase e ++ [e] := by
+      unfold Lookup.pin; split <;> rfl
+    unfold Lookup.find?
+    rw [this]
+    cases hfe : List.find? (fun x => x.fst == k) (l.data.erase e) with
+    | some q => exact ⟨q, by simp [List.find?_append, hfe]⟩
+    | none => exact ⟨e, by simp [List.find?_append, hfe, hk]⟩
+
+theorem entry_index_exec (e : LookupEnc) (k : String) (hne : e.lookup.evicting = true → e.lookup.data ≠ []) :
+    (Gen.LookupEncoder.encode_entry_index k).exec e = execLike (e.entryIndex k) e := by
+  unfold Gen.LookupEncoder.encode_entry_index LookupEnc.entryIndex execLike
+  have h1 := make_last_to_evict_app e.lookup k
+  cases hm : e.lookup.moveToEnd k with
+  | some l' =>
+    rw [hm] at h1
+    py_simp [h1, hm]
+  | none =>
+    rw [hm] at h1
+    have habs : e.lookup.find? k = none := by
+      unfold Lookup.moveToEnd at hm; split at hm <;> simp_all
+    have hi := insert_exec e.lookup k habs hne
+    simp only [M.exec, ExceptT.run, StateT.run] at hi
+    cases hins : e.lookup.insert k with
+    | ok p =>
+      obtain ⟨l', a⟩ := p
+      rw [hins] at hi
+      by_cases hq : a = e.lastAssigned + 1 <;> py_simp [h1, hm, hi, hq]
+    | error err =>
+      rw [hins] at hi
+      py_simp [h1, hm, hi]
+
+theorem term_index_exec (e : LookupEnc) (v : String) :
+    (Gen.LookupEncoder.encode_term_index v).exec e = execLike (e.termIndex v) e := by
+  unfold Gen.LookupEncoder.encode_term_index LookupEnc.termIndex execLike
+  have h1 := make_last_to_evict_app e.lookup v
+  cases hm : e.lookup.moveToEnd v with
+  | none => rw [hm] at h1; py_simp [h1, hm]
+  | some l' =>
+    rw [hm] at h1
+    obtain ⟨p, hf⟩ := moveToEnd_find hm
+    have : List.find? (fun x => x.fst == v) l'.data = some p := hf
+    py_simp [h1, hm, hf, odGet, this]
+
+theorem name_term_index_exec (e : LookupEnc) (v : String) :
+    (Gen.LookupEncoder.encode_name_term_index v).exec e = execLike (e.nameTermIndex v) e := by
+  unfold Gen.LookupEncoder.encode_name_term_index LookupEnc.nameTermIndex
+  have h := term_index_exec e v
+  simp only [M.exec, ExceptT.run, StateT.run] at h
+  cases ht : e.termIndex v with
+  | ok p =>
+    obtain ⟨e', i⟩ := p
+    rw [ht] at h
+    by_cases hq : i = e.lastReused + 1 <;> py_simp [h, hq, execLike]
+  | error err => rw [ht] at h; py_simp [h, execLike]
+
+theorem prefix_term_index_exec (e : LookupEnc) (v : String) :
+    (Gen.LookupEncoder.encode_prefix_term_index v).exec e = execLike (e.prefixTermIndex v) e := by
+  unfold Gen.LookupEncoder.encode_prefix_term_index LookupEnc.prefixTermIndex
+  have h := term_index_exec e v
+  simp only [M.exec, ExceptT.run, StateT.run] at h
+  by_cases hz : e.lookup.maxSize = 0
+  · py_simp [hz, execLike]
+  · by_cases hv : v = ""
+    · by_cases hr : e.lastReused = 0
+      · py_simp [hz, hv, hr, execLike]
+      · subst hv
+        cases ht : e.termIndex "" with
+        | ok p =>
+          obtain ⟨e', i⟩ := p; rw [ht] at h
+          by_cases hq : i = e.lastReused <;> py_simp [h, hz, hr, hq, execLike]
+        | error err => rw [ht] at h; py_simp [h, hz, hr, execLike]
+    · cases ht : e.termIndex v with
+      | ok p =>
+        obtain ⟨e', i⟩ := p; rw [ht] at h
+        by_cases hr : e.lastReused = 0
+        · py_simp [h, hz, hv, hr, execLike]
+        · by_cases hq : i = e.lastReused <;> py_simp [h, hz, hv, hr, hq, execLike]
+      | error err => rw [ht] at h; py_simp [h, hz, hv, execLike]
 
 /-! ## Property C05 for the translated code -/
 
